@@ -70,7 +70,11 @@ def gen_shape(R, depth):
 R_SPACING = [1.0]
 
 
-def aspects():
+def _base_builder(tmp, **over):
+    return aspects(_want_base=True)(tmp, **over)
+
+
+def aspects(_want_base=False):
     """(name, builder(breached) -> callable doing build+write; met-check on the decoded file)"""
     def base(tmp, **over):
         def go():
@@ -100,6 +104,8 @@ def aspects():
                 lf.add_equipment('EQ', eq_type=over.get('eq_type'), location=over.get('location'))
             df.write(f'{tmp}/hc.dlis', output_chunk_size=2**20)
         return go
+    if _want_base:
+        return base
     return [
         ('object-name', lambda t, b: base(t, channel_name='depth' if b else 'DEPTH')),
         ('set-identifier', lambda t, b: base(t, set_identifier='Main set' if b else 'MAIN-SET')),
@@ -117,6 +123,74 @@ def aspects():
         ('equipment-type', lambda t, b: base(t, eq_type='Gadget' if b else 'Tool')),
         ('equipment-location', lambda t, b: base(t, location='Moon' if b else 'Well')),
     ]
+
+
+# the same aspects as keyword overrides of the base build, (met, breached), for combinations
+ASPECT_OVERRIDES = [
+    ('object-name', {'channel_name': 'DEPTH'}, {'channel_name': 'depth'}),
+    ('set-identifier', {'set_identifier': 'MAIN-SET'}, {'set_identifier': 'Main set'}),
+    ('header-id', {'fh_id': 'MY-HEADER'}, {'fh_id': 'my header'}),
+    ('signed-int-channel', {'dtype': 'uint16'}, {'dtype': 'int16'}),
+    ('channel-in-no-frame', {}, {'unassigned': True}),
+    ('channel-in-two-frames', {}, {'second_frame': True}),
+    ('index', {'index_type': 'BOREHOLE-DEPTH', 'index': [1.0, 2.0, 3.0, 4.0]},
+     {'index_type': 'BOREHOLE-DEPTH', 'index': [1.0, 2.0, 4.0, 8.0]}),
+    ('units', {'units': 'm'}, {'units': 'furlong'}),
+    ('equipment-type', {'eq_type': 'Tool'}, {'eq_type': 'Gadget'}),
+    ('equipment-location', {'location': 'Well'}, {'location': 'Moon'}),
+]
+
+
+def combination_stream(chk, tmp, R, n):
+    """several aspects at once, each met or breached, with or without an explicit spacing, inside and outside the mode
+    (plain, nested, left by an earlier exception): build+write raises iff the mode is on and something is breached"""
+    base = aspects.__globals__.get('_base_builder')
+    for i in range(n):
+        over, breached = {}, []
+        chosen = set(R.sample([a[0] for a in ASPECT_OVERRIDES], R.choice([0, 0, 0, 1, 1, 2, 3])))
+        for name, met, br in ASPECT_OVERRIDES:
+            if name in chosen:
+                over.update(br)
+                breached.append(name)
+            elif R.random() < 0.6:
+                over.update(met)
+        if 'index' in over and R.random() < 0.4:
+            over['spacing'] = R.choice([1.0, 0.5, {'value': 1.0, 'units': 'm'}])
+        if 'index_type' not in over and 'index' in over:
+            over.pop('index')
+        f = base(tmp, **over)
+        shape = R.choice(['outside', 'inside', 'inside', 'nested', 'after-exception'])
+
+        def g():
+            if shape == 'outside':
+                return f()
+            if shape == 'nested':
+                with high_compatibility_mode():
+                    with high_compatibility_mode():
+                        pass
+                    return f()
+            if shape == 'after-exception':
+                try:
+                    with high_compatibility_mode():
+                        raise Boom()
+                except Boom:
+                    pass
+                return f()          # the mode was left by the exception: outside again
+            with high_compatibility_mode():
+                return f()
+        st, err = call(g)
+        inside = shape in ('inside', 'nested')
+        case = {'breached': breached, 'overrides': {k: repr(v) for k, v in over.items()}, 'context': shape}
+        chk.case('aspect-combinations', nontrivial_key=('comb', i), sample={'breached': breached, 'context': shape, 'status': st})
+        chk.count(f'combination:{"in" if inside else "out"}:{"breach" if breached else "met"}:{st}')
+        if global_config.high_compat_mode:
+            chk.fail('context:flag-leaks', case, 'flag still on after the context')
+            global_config.high_compat_mode = False
+        want = 'err' if (breached and inside) else 'ok'
+        if st != want:
+            key = 'combination:not-enforced' if want == 'err' else ('combination:rejected-outside-mode' if not inside
+                                                                   else 'combination:valid-rejected-in-mode')
+            chk.fail(key, case, f'build+write {st} ({err}), expected {want}')
 
 
 def run(tier):
@@ -206,6 +280,7 @@ def run(tier):
                     if st != want:
                         key = 'aspect:not-enforced' if want == 'err' else ('aspect:rejected-outside-mode' if not inside else 'aspect:valid-rejected-in-mode')
                         chk.fail(key + ':' + name, case, f'build+write {st} ({err}), expected {want}')
+        combination_stream(chk, tmp, R, 120 if tier == 'quick' else 1200)
         # (c2) objects created in one mode, enumerated attributes (re)assigned in the other
         def make_objects():
             df = DLISFile(set_identifier='SET-1')
